@@ -112,23 +112,35 @@ FlushObj ==
   /\ stack' = <<[kind |-> "top", items |-> <<>>]>> /\ offs' = <<>>
   /\ UNCHANGED <<pos, mode, acc, aux, fcase, phase, topstart, lastdata, queue, srcbytes, cursub, secs, res, indexed, mem>>
 
-\* payload of a stream object: raw, or inflated by the zlib primitive when its only filter is FlateDecode
-PayloadOf(o) ==
+\* payload of a stream object: raw, or inflated by the zlib primitive when its only filter is FlateDecode.  Dec(o, raw) is
+\* what stands between the bytes in the file and the filters: nothing (Clear), or the security handler's decryption
+PayloadWith(o, Dec(_, _)) ==
   LET raw == SubSeq(FB, o.data.start, o.data.start + o.data.len - 1)
+      d == Dec(o, raw)
       f == Get(o.val, K_Filter)
-  IN IF f.t = "none" THEN [ok |-> TRUE, out |-> raw]
-     ELSE IF IsName(f, N_Flate) \/ (f.t = "arr" /\ Len(f.v) = 1 /\ IsName(f.v[1], N_Flate)) THEN InflateR(raw)
+  IN IF ~d.ok THEN [ok |-> FALSE, out |-> <<>>]
+     ELSE IF f.t = "none" THEN [ok |-> TRUE, out |-> d.out]
+     ELSE IF IsName(f, N_Flate) \/ (f.t = "arr" /\ Len(f.v) = 1 /\ IsName(f.v[1], N_Flate)) THEN InflateR(d.out)
      ELSE [ok |-> FALSE, out |-> <<>>]
+Clear(o, raw) == [ok |-> TRUE, out |-> raw]
+PayloadOf(o) == PayloadWith(o, Clear)
 ObjStms == SelectSeq(objs, LAMBDA o : o.val.t = "stream" /\ TypeIs(o.val, N_ObjStm))
 
-\* end of the file scan: queue the object streams (and whatever `extra` payloads the caller wants lexed)
+\* end of the file scan: everything at top level is known (phase "trailer": the moment a reader of an encrypted file
+\* finds /Encrypt and derives the key); `extra` payloads the caller wants lexed are queued
 EndBody(extra) ==
   /\ phase = "body" /\ mode \in {"eof", "error"}
   /\ TLCSet(4, tails \o [x \in 1..Len(stack[1].items) |-> [off |-> offs[x], v |-> stack[1].items[x]]])
   /\ bad' = bad \cup (IF mode = "error" THEN {"lexical error in file body"} ELSE {}) \cup (IF Len(stack) # 1 THEN {"unclosed container at end of file"} ELSE {})
-  /\ queue' = [x \in 1..Len(ObjStms) |-> [kind |-> "objstm", n |-> ObjStms[x].n, p |-> PayloadOf(ObjStms[x])]] \o extra
-  /\ phase' = "next"
+  /\ queue' = extra
+  /\ phase' = "trailer"
   /\ UNCHANGED <<lexvars, fcase, topstart, offs, lastdata, srcbytes, cursub, secs, res, indexed, mem>>
+\* the object streams are queued for lexing, decrypted by Dec
+QueueStmsD(Dec(_, _)) ==
+  /\ phase = "trailer"
+  /\ queue' = [x \in 1..Len(ObjStms) |-> [kind |-> "objstm", n |-> ObjStms[x].n, p |-> PayloadWith(ObjStms[x], Dec)]] \o queue
+  /\ phase' = "next"
+  /\ UNCHANGED <<lexvars, fcase, topstart, offs, lastdata, bad, srcbytes, cursub, secs, res, indexed, mem>>
 
 NextSub ==
   /\ phase = "next" /\ queue # <<>>
@@ -400,5 +412,7 @@ AllDone == /\ phase = "next" /\ queue = <<>> /\ indexed
            /\ UNCHANGED <<lexvars, fcase, topstart, offs, lastdata, bad, queue, srcbytes, cursub, secs, res, indexed, mem>>
 ContentOf(x) == LET S == {y \in 1..Len(subs) : subs[y].kind = "content" /\ subs[y].n = x} IN
                 IF S = {} THEN [ok |-> FALSE, items |-> <<>>] ELSE subs[CHOOSE y \in S : TRUE]
-FileStep(wantContent) == ScanStep \/ FlushObj \/ FlushSub \/ EndBody(<<>>) \/ NextSub \/ EndSub \/ Finish1 \/ Finish2 \/ QueuePages(wantContent) \/ AllDone
+\* every step but the queueing of object streams (which an encrypted file's reader does with its key)
+FileStepRest(wantContent) == ScanStep \/ FlushObj \/ FlushSub \/ EndBody(<<>>) \/ NextSub \/ EndSub \/ Finish1 \/ Finish2 \/ QueuePages(wantContent) \/ AllDone
+FileStep(wantContent) == FileStepRest(wantContent) \/ QueueStmsD(Clear)
 =============================================================================
